@@ -38,15 +38,9 @@ func InitGenesis(
 		for _, white := range perm.Whitelist {
 			k.WhitelistRolePermission(ctx, roleId, types.PermValue(white))
 		}
-		// TODO when we add keeper function for managing blacklist mapping, we can just enable this
-		// for _, black := range perm.Blacklist {
-		// 	err := k.BlacklistRolePermission(ctx, roleId, types.PermValue(black))
-		// 	if err != nil {
-		// 		// TODO: this is fine with current upgrade but from next time, it should panic
-		// 		fmt.Println("There was an error blacklisting role permission", err)
-		// 		// panic(err)
-		// 	}
-		// }
+		for _, black := range perm.Blacklist {
+			k.BlacklistRolePermission(ctx, roleId, types.PermValue(black))
+		}
 	}
 
 	k.SetNextProposalID(ctx, genesisState.StartingProposalId)
